@@ -206,11 +206,12 @@ def make_aux(rng, a, kind):
     aux['edge_labels'] = [(int(i), int(j), int(rng.randrange(2))) for i, j in zip(*a.nonzero())][:3]
     aux['label_colors'] = ['red', 'blue', 'green']
     aux['vector'] = np.array([float(rng.choice([0, 0, 1, 2])) for _ in range(nc)])
+    aux['vector'][rng.randrange(nc)] = 1.0
     aux['dense_block'] = np.round(npr.random((nc, 2)) * 4) / 4
     aux['coeffs'] = np.array([1.0, 0.5, 0.25])
     aux['index'] = np.array(sorted(rng.sample(range(nr), min(nr, 3))))
-    v = sparse.csr_matrix(a)[: min(2, nr)].astype(float)
-    aux['vectors'] = v
+    full = [i for i in range(nr) if a.indptr[i + 1] > a.indptr[i]][:2] or [0]
+    aux['vectors'] = sparse.csr_matrix(a)[full].astype(float)          # rows of the graph itself, with at least one entry
     dend = None
     if nr == nc and nr >= 2:
         from sknetwork.hierarchy import Paris
